@@ -20,10 +20,11 @@ class C14Lr(C03):
         'thorough': [ModelRun('LeftRightMC.tla', c, workers=16, xmx='28g') for c in ('LeftRight_quick.cfg', 'LeftRight_rlive.cfg', 'LeftRight_live.cfg', 'LeftRight_thorough1.cfg')],
     }
     programs = {
-        'quick': [('0;0/1,2;1,2/1,2;1,2', {}, 800, 'solo'), ('0;0/0/2;2;2', {}, 500, 'solo'), ('0;0/%s/%s' % (RELAY, RELAY), {'budget': 8000}, 300, 'random'),
-                  ('0/%s/%s/1;1' % (RELAY, RELAY), {'budget': 8000}, 200, 'random')],
-        'thorough': [('0;0/1,2;1,2/1,2;1,2', {}, 15000, 'solo'), ('0;0/0/2;2;2', {}, 10000, 'solo'), ('0;0/%s/%s' % (RELAY, RELAY), {'budget': 8000}, 5000, 'random'),
-                     ('0/%s/%s/1;1' % (RELAY, RELAY), {'budget': 8000}, 3000, 'random'), ('0;0/0;0/%s/%s' % (RELAY, RELAY), {'budget': 12000}, 3000, 'pct')],
+        'quick': [('0;0/1,2;1,2/1,2;1,2', {}, 800, 'solo'), ('0;0/0/2;2;2', {}, 500, 'solo'), ('0;0/%s/%s' % (RELAY, RELAY), {'budget': 8000, 'fair': 1}, 300, 'rr'),
+                  ('0/%s/%s/1;1' % (RELAY, RELAY), {'budget': 8000, 'fair': 1}, 200, 'rr'), ('0;0/%s/%s' % (RELAY, RELAY), {'budget': 8000}, 200, 'random')],
+        'thorough': [('0;0/1,2;1,2/1,2;1,2', {}, 15000, 'solo'), ('0;0/0/2;2;2', {}, 10000, 'solo'), ('0;0/%s/%s' % (RELAY, RELAY), {'budget': 8000, 'fair': 1}, 5000, 'rr'),
+                     ('0/%s/%s/1;1' % (RELAY, RELAY), {'budget': 8000, 'fair': 1}, 3000, 'rr'), ('0;0/0;0/%s/%s' % (RELAY, RELAY), {'budget': 12000, 'fair': 1}, 3000, 'rr'),
+                     ('0;0/0;0/%s/%s' % (RELAY, RELAY), {'budget': 12000}, 2000, 'pct')],
     }
 
 
